@@ -103,7 +103,7 @@ def bounded_renaming(tier, seed):
     jobs = []
     for tree in ["flat", "deep", "prefix", "nestedprefix"]:
         mods = TREES[tree]
-        rels = import_relations(mods, rng, n_random=(30 if tier == "quick" else 300), exhaustive_upto=1, include_related=True)
+        rels = import_relations(mods, rng, n_random=(30 if tier == "quick" else 2000), exhaustive_upto=1, include_related=True)
         rng.shuffle(rels)
         if tier == "quick":
             rels = rels[:64]
@@ -111,7 +111,7 @@ def bounded_renaming(tier, seed):
         for i in range(0, len(rels), size):
             jobs.append((tree, rels[i:i + size], rng.randrange(1 << 30), 3 if tier == "quick" else 8))
     _merge(b, pmap(_c14_chunk, jobs))
-    for res in pmap(_c14_limit_case, [seed * 1009 + i for i in range(60 if tier == "quick" else 600)]):
+    for res in pmap(_c14_limit_case, [seed * 1009 + i for i in range(60 if tier == "quick" else 6000)]):
         b.case()
         for v in res:
             b.violation(v["case"], v["detail"], v["input"])
@@ -239,7 +239,7 @@ def bounded_purity(tier, seed):
     jobs = []
     for tree in ["deep", "prefix", "nestedprefix"]:
         mods = TREES[tree]
-        rels = import_relations(mods, rng, n_random=(24 if tier == "quick" else 240), exhaustive_upto=0, include_related=True)[1:]
+        rels = import_relations(mods, rng, n_random=(24 if tier == "quick" else 2400), exhaustive_upto=0, include_related=True)[1:]
         size = max(1, len(rels) // 8)
         for i in range(0, len(rels), size):
             jobs.append((tree, rels[i:i + size], rng.randrange(1 << 30), 2 if tier == "quick" else 5))
